@@ -37,6 +37,12 @@ func (m *Machine) Run(t *rapid.T, weights map[string]int, minSteps, maxSteps int
 		"importPubKey": func() { m.OpImportPubKey(t) },
 		"setSynced":    func() { m.OpSetSyncedTo(t, fate()) },
 		"newScope":     func() { m.OpNewScope(t) },
+		"convert": func() {
+			// conversion to watching-only happens at most once per history
+			if !m.WatchOnly {
+				m.C04Convert(false)
+			}
+		},
 		"restart": func() {
 			m.Case.Logf("restart")
 			m.Restart()
@@ -56,6 +62,11 @@ func (m *Machine) Run(t *rapid.T, weights map[string]int, minSteps, maxSteps int
 	check("init")
 	for i := 0; i < steps; i++ {
 		name := rapid.SampledFrom(names).Draw(t, "op")
+		if m.WatchOnly && !afterConversion[name] {
+			// after a conversion drawn in the middle of a history only the
+			// operations modelled for a watching-only manager go on
+			continue
+		}
 		m.nextFate = Commit
 		if m.ExtraFates[name] {
 			m.nextFate = fate()
@@ -64,4 +75,11 @@ func (m *Machine) Run(t *rapid.T, weights map[string]int, minSteps, maxSteps int
 		m.checkLockedMemory(name)
 		check(name)
 	}
+}
+
+// afterConversion lists the operations Run continues with on a manager that was
+// converted to watching-only in the middle of a history.
+var afterConversion = map[string]bool{
+	"next": true, "lookup": true, "markUsed": true, "importKey": true, "importPubKey": true, "setSynced": true, "restart": true,
+	"rename": true, "convert": true,
 }
